@@ -4,10 +4,12 @@
     Model: Repro/ListView.v (the functions [interpret], [run_session], [update_field],
     [reparse] that ListCheck.agree runs); spec: Repro/ListSpec.v ([split_spec], [value_ok],
     [closed_value], [good_value], [list_remove], [list_replace] that ListCheck.holds uses);
-    proofs: Repro/ListLemmas.v, ListProofs.v, ListEditProofs.v, ListRefProofs.v. *)
+    proofs: Repro/ListLemmas.v, ListProofs.v, ListEditProofs.v, ListRefProofs.v (whitespace lists),
+    ListCommaBase.v, ListCommaProofs.v (comma lists). *)
 From Coq Require Import String.
 From Verif Require Import Lib.Base Lib.Dec Lib.PyStr Gen.PyChars
-  Repro.ListView Repro.ListSpec Repro.ListLemmas Repro.ListProofs Repro.ListEditProofs Repro.ListRefProofs.
+  Repro.ListView Repro.ListSpec Repro.ListLemmas Repro.ListProofs Repro.ListEditProofs Repro.ListRefProofs
+  Repro.ListCommaBase Repro.ListCommaProofs.
 
 Definition is_comma (k : lkind) : bool := match k with Comma => true | Space => false end.
 
@@ -122,18 +124,100 @@ Theorem C11_view_session_refines_space :
     /\ (forall e, sr_close r = Some e -> sr_value r = v).
 Proof. exact view_session_refines_space. Qed.
 
-(** NOT PROVED (kept visible):
-    view_edit_readback_comma (theorems 3 and 5 for comma-separated lists)
-      forall name v os, value_ok v = true -> closed_value v = true -> name_ok name = true ->
-        forallb (value_op with good_value true) os = true ->
-        the conclusions of theorem 5 with Comma / split_spec true / good_value true
-      - missing: the invariant on comma token lists (between two values there is exactly one
-        comma; what _remove_node unlinks contains exactly one comma or the list ends) and its
-        preservation by append / remove, plus the analogue of [written_text] for comma tokens.
-        Reading (theorem 1), the no-op close (2) and locality (4) ARE proved for comma lists;
-        their edits are covered by the correspondence and by holds on every run.
-    The operations append_separator / append_newline / append_comment (not named by the
-    property) are modelled and compared, not covered by theorems 3 and 5. *)
+(** 6. view_edit_readback, comma-separated lists.  The analogue of theorem 3: for every value
+       text of the domain that does not end inside a comment, every accepted field name and
+       EVERY sequence of append / remove / replace operations whose new values are good values
+       of a comma list (non-empty, no line boundary, no comma, no whitespace at either end -
+       inner whitespace as in "libc6 (>= 2.3)" is fine):
+       - list(view) after opening is the reference split l0 (comment lines dropped, the whole
+         text split on ',', pieces trimmed, empty pieces dropped; a value may span lines);
+       - every operation does what the Python list operation does on the values, and is
+         refused exactly when the list operation is not applicable, leaving everything as it
+         was.  remove covers EVERY layout: one-line and multi-line lists, leading or trailing
+         commas, doubled commas, values spanning lines, comment lines between (and inside)
+         values - i.e. both outcomes of _remove_node's left/right choice and clear();
+       - if closing the view succeeds, the text written back is again in the domain, (when
+         something was written) re-parses without error to itself, and a fresh comma view of
+         it reads exactly the edited list;
+       - if closing fails, the field keeps its text. *)
+Theorem C11_view_edit_readback_comma :
+  forall name v os,
+    value_ok v = true -> closed_value v = true -> name_ok name = true ->
+    forallb edit_op_c os = true ->
+    let r := run_session Comma name v os in
+    let l0 := split_spec true v in
+    sr_read r = Ok l0
+    /\ map outcome_list (sr_ops r) = fst (l_run os l0)
+    /\ (sr_close r = None ->
+        value_ok (sr_value r) = true
+        /\ (sr_value r = v \/ reparse name (sr_value r) = Ok (sr_value r))
+        /\ exists vw', interpret Comma (sr_value r) = Ok vw' /\ view_values vw' = snd (l_run os l0))
+    /\ (forall e, sr_close r = Some e -> sr_value r = v).
+Proof. exact view_edit_readback_comma. Qed.
+
+(** the single step behind it: what _update_field writes for a comma view in the invariant
+    [inv_c] (item shapes, token texts, complete comment lines, the line automaton accepts
+    the tokens, at least one comma between two values) reads back as the values of the view,
+    is in the domain and re-parses to itself *)
+Theorem C11_view_edit_valid_comma :
+  forall name vw v',
+    inv_c vw -> name_ok name = true -> update_field name vw = Ok v' ->
+    value_ok v' = true
+    /\ reparse name v' = Ok v'
+    /\ exists vw', interpret Comma v' = Ok vw' /\ view_values vw' = view_values vw.
+Proof. exact update_field_readback_c. Qed.
+
+(** 7. view_edit_readback, comma-separated lists, directly AND through value references.  The
+       analogue of theorem 5 against the abstract list-with-identities machine [a_step]:
+       every operation (append / remove / replace / snapshot of the value references /
+       ref.value / ref.value = x / ref.remove()) is refused exactly when the abstract
+       operation is not applicable and then changes nothing; otherwise list(view) is the
+       abstract list and a reference read returns the abstract value; if closing succeeds the
+       written text is in the domain, (when something was written) re-parses to itself, and a
+       fresh view reads exactly the final abstract list; if closing fails the field keeps
+       its text. *)
+Theorem C11_view_session_refines_comma :
+  forall name v os,
+    value_ok v = true -> closed_value v = true -> name_ok name = true ->
+    forallb value_op_c os = true ->
+    let r := run_session Comma name v os in
+    let st0 := a_init (split_spec true v) in
+    sr_read r = Ok (split_spec true v)
+    /\ map outcome_abs (sr_ops r) = fst (a_run os st0)
+    /\ (sr_close r = None ->
+        value_ok (sr_value r) = true
+        /\ (sr_value r = v \/ reparse name (sr_value r) = Ok (sr_value r))
+        /\ exists vw', interpret Comma (sr_value r) = Ok vw'
+                       /\ view_values vw' = a_values (snd (a_run os st0)))
+    /\ (forall e, sr_close r = Some e -> sr_value r = v).
+Proof. exact view_session_refines_comma. Qed.
+
+(** 8. the write-back of a comma list succeeds whenever there is something to write.  For a
+       value text whose last line is not a comment line ([ends_on_comment v = false], which
+       implies [closed_value]; a parsed document guarantees it - such a line belongs to what
+       follows the field) and every sequence of the operations of theorem 6 resp. 7: if the
+       edited list is not empty, closing the view raises nothing.  (So the conclusions of 6 / 7
+       about the written text apply; the only refused write-back is that of an emptied list.) *)
+Theorem C11_view_close_succeeds_comma :
+  forall name v os,
+    value_ok v = true -> ends_on_comment v = false -> name_ok name = true ->
+    forallb edit_op_c os = true ->
+    snd (l_run os (split_spec true v)) <> [] ->
+    sr_close (run_session Comma name v os) = None.
+Proof. exact view_close_succeeds_comma. Qed.
+
+Theorem C11_session_close_succeeds_comma :
+  forall name v os,
+    value_ok v = true -> ends_on_comment v = false -> name_ok name = true ->
+    forallb value_op_c os = true ->
+    a_values (snd (a_run os (a_init (split_spec true v)))) <> [] ->
+    sr_close (run_session Comma name v os) = None.
+Proof. exact session_close_succeeds_comma. Qed.
+
+(** Not covered by theorems 3, 5, 6, 7, 8 (modelled and compared on every run, not named by the
+    property): the operations append_separator / append_newline / append_comment, and new
+    values outside [good_value] (a comma-list value with a line break or a comment line
+    inside, which the value factory accepts). *)
 
 Local Open Scope string_scope.
 Example C11_nonvacuous_read :
@@ -179,9 +263,63 @@ Example C11_nonvacuous_refs :
   /\ sr_value r = dec " z\00000a c w\00000a".
 Proof. vm_compute. repeat split. Qed.
 
+
+(** a session that meets every hypothesis of theorem 6: values with inner whitespace, a tab
+    continuation, comment lines between values; "c" has a comment line before it and none after
+    (unlinked to the right), "a" is the first value (to the right), "e" the last (to the left);
+    an absent value, a replace, appends; the close succeeds and the written text is as expected
+    (the implementation writes the same text) *)
+Example C11_nonvacuous_edit_comma :
+  let v := dec " a, b (>= 1),\00000a# about c\00000a\000009c,\00000a# about d\00000a d , e\00000a" in
+  let os := [ORemove (dec "c"); OAppend (dec "f g"); ORemove (dec "zz");
+             OReplace (dec "b (>= 1)") (dec "x | y"); ORemove (dec "a"); ORemove (dec "e");
+             OAppend (dec "#h")] in
+  let r := run_session Comma (dec "X-List") v os in
+  value_ok v = true /\ closed_value v = true /\ ends_on_comment v = false /\ name_ok (dec "X-List") = true
+  /\ forallb edit_op_c os = true
+  /\ split_spec true v = [dec "a"; dec "b (>= 1)"; dec "c"; dec "d"; dec "e"]
+  /\ snd (l_run os (split_spec true v)) = [dec "x | y"; dec "d"; dec "f g"; dec "#h"]
+  /\ sr_close r = None
+  /\ sr_value r = dec " x | y,\00000a# about d\00000a d, f g, #h\00000a".
+Proof. vm_compute. repeat split. Qed.
+
+(** references on a comma list: snapshot, write through the second, remove through the first,
+    stale accesses are refused, append, read through the old and through a fresh snapshot *)
+Example C11_nonvacuous_refs_comma :
+  let v := dec " a, b,\00000a c\00000a" in
+  let os := [OSnap; ORefSet 1 (dec "z z"); ORefRemove 0; ORefGet 0; ORefSet 0 (dec "q");
+             OAppend (dec "w"); ORefGet 2; OSnap; ORefGet 2] in
+  let r := run_session Comma (dec "F") v os in
+  value_ok v = true /\ closed_value v = true /\ ends_on_comment v = false /\ name_ok (dec "F") = true
+  /\ forallb value_op_c os = true
+  /\ a_values (snd (a_run os (a_init (split_spec true v)))) = [dec "z z"; dec "c"; dec "w"]
+  /\ map outcome_abs (sr_ops r) =
+     [Some ([dec "a"; dec "b"; dec "c"], None); Some ([dec "a"; dec "z z"; dec "c"], None);
+      Some ([dec "z z"; dec "c"], None); None; None;
+      Some ([dec "z z"; dec "c"; dec "w"], None); Some ([dec "z z"; dec "c"; dec "w"], Some (dec "c"));
+      Some ([dec "z z"; dec "c"; dec "w"], None); Some ([dec "z z"; dec "c"; dec "w"], Some (dec "w"))]
+  /\ sr_close r = None
+  /\ sr_value r = dec " z z,\00000a c, w\00000a".
+Proof. vm_compute. repeat split. Qed.
+
+(** a view in the invariant of the single-step theorem (it is the one [interpret] builds) *)
+Example C11_nonvacuous_valid_comma :
+  exists vw, interpret Comma (dec " a,\00000a# c\00000a b") = Ok vw /\ inv_c vw
+             /\ exists v', update_field (dec "F") vw = Ok v'.
+Proof.
+  destruct (interpret_inv_c (dec " a,\00000a# c\00000a b") eq_refl eq_refl) as [vw [H1 [H2 _]]].
+  exists vw. split; [exact H1|]. split; [exact H2|].
+  vm_compute in H1. injection H1 as <-. vm_compute. eexists. reflexivity.
+Qed.
+
 Print Assumptions C11_view_reads_split.
 Print Assumptions C11_view_noop_identity.
 Print Assumptions C11_view_edit_readback_space.
 Print Assumptions C11_view_edit_valid_space.
 Print Assumptions C11_view_edit_local.
 Print Assumptions C11_view_session_refines_space.
+Print Assumptions C11_view_edit_readback_comma.
+Print Assumptions C11_view_edit_valid_comma.
+Print Assumptions C11_view_session_refines_comma.
+Print Assumptions C11_view_close_succeeds_comma.
+Print Assumptions C11_session_close_succeeds_comma.
